@@ -1,33 +1,12 @@
 #!/usr/bin/env python3
-"""Regenerates MANIFEST.json from the table below (the single place where claims are edited)."""
+"""Regenerates MANIFEST.json from claims/Cxx.json (the single place where claims are edited)."""
 import json, os
 V = os.path.dirname(os.path.dirname(os.path.abspath(__file__)))
 ALL = ['C%02d' % i for i in range(1, 21)]
-CLAIMS = {
- 'C06': dict(
-   text='Proof (Coq): the chunked read loop of majority_vote_byte_scan refines the unchunked column vote for every chunk size '
-        '>= 1 and every list of >= 3 copies; the column vote returns a value of maximal count, the earliest such in copy order; '
-        'output length = longest copy; status non-zero iff some offset reached by >= 2 copies has all values distinct; strict '
-        'majority at every offset gives back the original; < 3 copies gives the first copy and status 1. All seven theorems '
-        'are closed under the global context. The model is tied to /repo by running the extracted model and the real function '
-        'on the same inputs (exhaustive small space + random) and by evaluating the plurality predicate on the implementation.',
-   design='DESIGN.md section 4, C06',
-   note='trusted: Coq kernel+VM, extraction (ExtrOcamlBasic), OCaml driver, the harness; file objects modelled as byte lists; '
-        'for < 3 copies the function is exercised through real files (with in-memory handles it raises NameError: not the CLI path)',
-   technique='Coq proof (induction over read rounds, refinement to column-vote spec) + differential correspondence via extraction'),
- 'C20': dict(
-   text='Proof (Coq): for every chunk size >= 1 and start offsets, the chunked loop of diff_bytes_files returns (#differing '
-        'positions over the common length + |length difference|, longer length); the difference is 0 iff the files are equal; '
-        'diff_count_files is list equality; the tree metrics are the sums over the reference tree (missing file = wholly '
-        'different, extra files ignored); the exit rule is 0 iff every reference file has an identical counterpart (a missing '
-        'EMPTY file adds 0 bytes - stated in the theorem). Seven theorems, closed under the global context. Tied to /repo by '
-        'running the extracted model and the real functions on real files (exhaustive small space + random + trees + '
-        'restest main() on stub configs).',
-   design='DESIGN.md section 4, C20',
-   note='trusted: Coq kernel+VM, extraction, OCaml driver, harness; the float step diff/total*100 == 0 <=> diff == 0 (total > 0) '
-        'is not proved in Coq; config parsing / command execution of restest are not modelled',
-   technique='Coq proof (induction over read rounds, refinement to Hamming+length spec) + differential correspondence via extraction'),
-}
+CLAIMS = {}
+for _f in sorted(os.listdir(os.path.join(V, 'claims'))):
+    if _f.endswith('.json'):
+        CLAIMS[_f[:-5]] = json.load(open(os.path.join(V, 'claims', _f)))
 NOT_YET = 'not yet built in this round (planned per DESIGN.md section 7); no claim is made'
 
 def main():
